@@ -34,6 +34,7 @@ def run(rep, tier):
         from . import c16
         c16.shared(rep_, prog, rules=('R16b', 'R16c', 'R16h'))
         c14.check_no_candidate_removed(rep_, prog)
+        c07.r07t(rep_, prog, only_files=('lex_dijkstra', 'sptrees', 'signed_dijkstra', 'cycles.hpp'))
         # root weight of the shortest-path trees (candidate sort keys): shared with C14
         sub14 = type(rep_)(rep_.prop, rep_.tier)
         c14.check_program(sub14, prog)
@@ -42,6 +43,7 @@ def run(rep, tier):
                 rep_.add(i.rule, i.site, i.function, i.what, i.status, i.detail, key=i.key)
     rep.rule('R17a', 'support-vector sum / dot product are merges of strictly increasing lists (an incomplete sum leaves a support non-orthogonal: the phase then picks a heavier or dependent cycle)', floor=0)
     rep.rule('R17c', 'compound support-vector operators are alias-safe', floor=0)
+    rep.rule('R07t', 'the set algorithms behind the tree labels see sorted ranges (inconsistent trees make the isometric variant return a heavier basis)', floor=1)
     rep.rule('R16b', 'forest index: dimension formula m - n + c (number of phases = number of cycles summed into the returned weight)', floor=1)
     rep.rule('R16c', 'spanning_forest reports 0 components only for the graph without vertices', floor=1)
     rep.rule('R16h', 'n, m and the component count are assigned on every path through create_index (an edgeless graph must yield weight 0, not 2^64 - n phases)', floor=1)
